@@ -10,7 +10,7 @@ META = dict(
         "user problem := fresh real symbols per distinct evaluation point, Lagrangian Hessian H0 + sum_i y_i H_i (multiplier-linear); QP harness: symbolic Q, q, A, b",
     ],
     assumptions=["exact real arithmetic (nlsat); the linear solver solves its system exactly (iterative solvers' tolerance: C17)", "base point inside the box, rho > 0, dt > 0", "sparse additions drop exact zeros as scipy does (explored by forking for the asymmetric formulation)"],
-    bounds=dict(quick="n<=2, m<=1, all four step solvers, all variable kinds; second simplified step n=m=1; two consecutive steps of one ActiveSet / Full method object (active set free to change) n=m=1; Newton variants n<=2, with the default active set and with a caller-chosen symbolic tau; QP n=m=1", thorough="n<=2, m<=2 (Standard n=3); QP n=2"),
+    bounds=dict(quick="n<=2, m<=1, all four step solvers, all variable kinds; second simplified step n=m=1; two consecutive steps of one ActiveSet / Full method object (active set free to change) n=m=1; n=17 / 24 with concrete diagonal Hessian and one concrete Jacobian row (symbolic point, multiplier, gradient, constraint value; free variables); Newton variants n<=2, with the default active set and with a caller-chosen symbolic tau; QP n=m=1", thorough="n<=2, m<=2 (Standard n=3); QP n=2"),
     outside=["n>2 (scaled formulations), m>2", "iterative linear solvers' tolerance", "floating-point rounding"],
     explanation="The step (dx before clipping, dy) returned by each real step solver is proved (nlsat, fresh solver) to satisfy the dense reference Newton system F'(z_hat) s = F(z) for the active set it used; Newton variants hand identical first systems to the linear solver; on symbolic QPs one step zeroes the residual.",
 )
@@ -39,6 +39,11 @@ def tasks(tier):
     for sv in ("Standard", "Symmetric") if q else steps.SOLVERS:
         t.append(dict(module="steps", fn="h_variants", shape=dict(vars=["boxed"], cons=["eq0"], solver=sv, tau=True), opts=o))
     t.append(dict(module="steps", fn="h_variants", shape=dict(vars=["lower", "upper"], cons=[], solver="Extended", tau=True), opts=o))
+    # beyond toy sizes: 17 / 24 variables with concrete derivative matrices (linear arithmetic): row and
+    # right-hand-side orderings, index arithmetic, sorts (numpy's default sort is unstable above 16 elements)
+    for sv in steps.SOLVERS:
+        for nn, nt in ((17, "Simplified"), (24, "Full")) if q else ((17, "Simplified"), (24, "Full"), (33, "ActiveSet")):
+            t.append(dict(module="steps", fn="h_large", shape=dict(solver=sv, n=nn, newton=nt, fmt="coo" if nn == 17 else "csr"), opts=dict(timeout_ms=60000)))
     # two consecutive steps of one method object (the active set may change in between)
     seqs = [("Standard", "ActiveSet"), ("Symmetric", "ActiveSet"), ("Extended", "Full")] if q else [(sv, nt) for sv in steps.SOLVERS for nt in ("ActiveSet", "Full", "Simplified")]
     for sv, nt in seqs:
